@@ -1,6 +1,7 @@
 import LoraVerif.Props.C14
 import LoraVerif.Props.TieA.C14
 import LoraVerif.Props.TieA.C14b
+import LoraVerif.Props.TieA.C14c
 /-!
 # C14 — the module `./check C14` builds: the property theorems (`Props/C14.lean`: the invariants
 I1–I5 over every history of the hand model of `LoRa<RK, DLY>`) together with the tie-A equalities
